@@ -275,10 +275,27 @@ fn plant<R: HRing>(r: &mut Rng, s: &Shape) -> Planted<R>
 where for<'x> &'x R: EucRingOps<R> {
     let (m, n, k) = (s.m, s.n, s.k);
     assert!(s.r1 <= m.min(n) && s.r2 <= (n - s.r1).min(k));
-    let a = rnd_chain::<R>(r, s.r1, s.t1, s.lvl);
+    let mut a = rnd_chain::<R>(r, s.r1, s.t1, s.lvl);
     let b = rnd_chain::<R>(r, s.r2, s.t2, s.lvl);
+    // now and then plant the torsion in "elementary divisor" form: the diagonal entries share factors pairwise but
+    // are not a divisibility chain (the planted truth is their chain form), so the SNF has to merge them
+    let mut diag1 = a.clone();
+    if !R::is_field() && s.t1 >= 2 && r.chance(1, 3) {
+        let t = s.t1.min(s.r1);
+        for i in (s.r1 - t)..s.r1 {
+            let mut e = R::one();
+            for _ in 0..(1 + r.below(3)) { e = &e * &rnd_nonunit::<R>(r, s.lvl.min(2)); }
+            diag1[i] = e;
+        }
+        let mut ch = diag1.clone();
+        for i in 0..ch.len() { for j in (i + 1)..ch.len() {
+            let g = R::gcd(&ch[i], &ch[j]);
+            if !g.is_zero() { let l = &ch[i] * &(&ch[j] / &g); ch[i] = g; ch[j] = l; }
+        } }
+        a = ch;
+    }
     let mut dd1 = D::<R>::zero(n, m);
-    for (i, x) in a.iter().enumerate() { dd1.set(i, i, x.clone()); }
+    for (i, x) in diag1.iter().enumerate() { dd1.set(i, i, x.clone()); }
     let mut dd2 = D::<R>::zero(k, n);
     for (i, x) in b.iter().enumerate() { dd2.set(i, s.r1 + i, x.clone()); }
     let (u, ui) = rnd_unimodular::<R>(r, n, s.ops, s.lvl.min(2));
